@@ -61,4 +61,11 @@ example : selfStarting false [[0x65, 1], [0x78, 0, 1, 0x67], [0x7C, 0x85, 1], [0
 /-- … and a frame that is NOT self-starting (continuation first) really depends on the state -/
 example : (run false [0xAA] [[0x7C, 0x45, 3]]).1 ≠ (run false [] [[0x7C, 0x45, 3]]).1 := by decide
 
+/-- the predicate is not vacuous: DESIGN §7 row 18 as observed on the unrepaired tree
+    (`c15.h264 2595 …`: the stale byte 0x93 of an abandoned unit is prepended) is rejected -/
+example : C15H264.ok
+    { avc := true, pre := [[0xC0, 0xA6, 0xDC], [0x9C, 0x90, 0x93]], frame := [[0x3C, 0x85], [0x3C, 0x45]] }
+    { panicked := false, after := [.ok [], .ok [0, 0, 0, 2, 0x25, 0x93]],
+      fresh := [.ok [], .ok [0, 0, 0, 1, 0x25]] } = false := by decide
+
 end Rtp.Props.C15.H264
